@@ -22,7 +22,7 @@
            sequence, revision, recent_sequences, unused_sequences, channel map with removals --, the
            cache's next sequence and which of the recent sequences were in the skipped list) and every
            entry that reached channelCacheImpl.AddToCache (collection id, sequence, document, revision,
-           channel map), first occurrence per sequence, ascending: Dedup.v (doc_changed) must predict
+           Deleted flag, channel map), first occurrence per sequence, ascending: Dedup.v (doc_changed) must predict
            exactly these entries. *)
 From SG Require Export Base.Prelude C20.SeqIdGen C20.SeqId C20.SeqIdCodec C01.ChanCache C01.Merge C01.Visible.
 From SG Require Export C01.VisibleTok C01.ChangesFeed C01.Notify C01.Dedup.
@@ -104,11 +104,12 @@ Inductive case :=
 | CNotify (active : list N) (seq : N) (chs : list (N * option N)) (notified : list N) (adds : list (N * bool))
 | CDedup (coll : N) (events : list (N * syncd * N * list N)) (observed : list dlv).
 
-Definition SD (seq rev : N) (recent unused : list N) (chs : list (N * option (N * N))) : syncd := mkSD seq rev recent unused chs.
-Definition DE (coll seq doc rev : N) (chs : list (N * option N)) : dlv := DEntry coll seq doc rev false chs.
+Definition SD (seq rev : N) (del : bool) (recent unused : list N) (chs : list (N * option (N * N * bool))) : syncd :=
+  mkSD seq rev del recent unused chs.
+Definition DE (coll seq doc rev : N) (del : bool) (chs : list (N * option N)) : dlv := DEntry coll seq doc rev del false chs.
 
-Definition dlv_seq (d : dlv) : N := match d with DUnused s => s | DEntry _ s _ _ _ _ => s end.
-Definition is_dentry (d : dlv) : bool := match d with DEntry _ _ _ _ _ _ => true | _ => false end.
+Definition dlv_seq (d : dlv) : N := match d with DUnused s => s | DEntry _ s _ _ _ _ _ => s end.
+Definition is_dentry (d : dlv) : bool := match d with DEntry _ _ _ _ _ _ _ => true | _ => false end.
 (* ascending by sequence, first occurrence kept *)
 Fixpoint dins (d : dlv) (l : list dlv) : list dlv :=
   match l with
@@ -118,7 +119,8 @@ Fixpoint dins (d : dlv) (l : list dlv) : list dlv :=
 Definition chs_eqb := list_eqb (fun (a b : N * option N) => (fst a =? fst b) && option_eqb N.eqb (snd a) (snd b)).
 Definition dlv_eqb (a b : dlv) : bool :=
   match a, b with
-  | DEntry c s d r _ chs, DEntry c' s' d' r' _ chs' => (c =? c') && (s =? s') && (d =? d') && (r =? r') && chs_eqb chs chs'
+  | DEntry c s d r dl _ chs, DEntry c' s' d' r' dl' _ chs' =>
+      (c =? c') && (s =? s') && (d =? d') && (r =? r') && Bool.eqb dl dl' && chs_eqb chs chs'
   | DUnused s, DUnused s' => s =? s'
   | _, _ => false
   end.
